@@ -120,6 +120,88 @@ func (ex *Exec) NewSymDB(sc *Schema, slots map[string]int, prefix string) *SymDB
 	return db
 }
 
+// NewInvDB creates a symbolic database whose rows satisfy the row-local clauses
+// of Inv by construction (NOT NULL facts, JSON columns as canonical encodings,
+// state-dependent nullness), which keeps infeasible decode/NULL branches out
+// of the search. The relational clauses of Inv are still asserted by the caller.
+func (ex *Exec) NewInvDB(sc *Schema, slots map[string]int, prefix string) *SymDB {
+	tt := ex.tt
+	db := ex.NewSymDB(sc, slots, prefix)
+	f := tt.Bool(false)
+	one := tt.BV(1, 64)
+	encMapVar := func(name string) *Term {
+		// an opaque string that is a valid map encoding by construction; its
+		// decoding (jdec_map_has/val) only materialises when the code looks inside
+		v := tt.Var(name, SString)
+		tt.validStr[v.id] = "map"
+		return v
+	}
+	for _, name := range db.names {
+		t := db.tabs[name]
+		for i, r := range t.rows {
+			nr := &Row{present: r.present, cols: append([]SVal{}, r.cols...)}
+			set := func(col string, v *Term, null *Term) {
+				ci, ok := t.def.idx[col]
+				if !ok {
+					return
+				}
+				if v == nil {
+					v = nr.cols[ci].v
+				}
+				if null == nil {
+					null = nr.cols[ci].null
+				}
+				nr.cols[ci] = SVal{v: v, null: null}
+			}
+			get := func(col string) SVal {
+				ci, ok := t.def.idx[col]
+				if !ok {
+					return SVal{v: tt.BV(0, 64), null: f}
+				}
+				return nr.cols[ci]
+			}
+			pn := fmt.Sprintf("%s.%s%d", prefix, name, i)
+			switch name {
+			case "promises":
+				for _, c := range []string{"id", "sort_id", "state", "param_data", "timeout", "created_on"} {
+					set(c, nil, f)
+				}
+				pending := tt.Eq(get("state").v, one)
+				set("param_headers", encMapVar(pn+".param_headers"), f)
+				set("tags", encMapVar(pn+".tags"), f)
+				set("value_headers", encMapVar(pn+".value_headers"), pending)
+				set("value_data", nil, pending)
+				set("completed_on", nil, pending)
+				set("idempotency_key_for_complete", nil, tt.Or(pending, get("idempotency_key_for_complete").null))
+			case "callbacks":
+				for _, c := range []string{"id", "promise_id", "root_promise_id", "recv", "timeout", "created_on"} {
+					set(c, nil, f)
+				}
+				set("mesg", tt.UF("jenc_message.Mesg", SString, tt.Var(pn+".mesg.type", SString), get("root_promise_id").v, tt.Var(pn+".mesg.leaf", SString)), f)
+			case "tasks":
+				for _, c := range []string{"id", "sort_id", "state", "root_promise_id", "recv", "timeout", "counter", "attempt", "ttl", "expires_at", "created_on"} {
+					set(c, nil, f)
+				}
+				set("mesg", tt.UF("jenc_message.Mesg", SString, tt.Var(pn+".mesg.type", SString), get("root_promise_id").v, tt.Var(pn+".mesg.leaf", SString)), f)
+				set("process_id", nil, tt.And(get("process_id").null, tt.Not(tt.Eq(get("state").v, tt.BV(4, 64)))))
+			case "locks":
+				for _, c := range []string{"resource_id", "execution_id", "process_id", "ttl", "expires_at"} {
+					set(c, nil, f)
+				}
+			case "schedules":
+				for _, c := range []string{"id", "sort_id", "description", "cron", "promise_id", "promise_timeout", "promise_param_data", "next_run_time", "created_on"} {
+					set(c, nil, f)
+				}
+				set("tags", encMapVar(pn+".tags"), f)
+				set("promise_tags", encMapVar(pn+".promise_tags"), f)
+				set("promise_param_headers", encMapVar(pn+".promise_param_headers"), f)
+			}
+			t.rows[i] = nr
+		}
+	}
+	return db
+}
+
 // EmptyDB creates a concrete empty database with the given slot counts.
 func (ex *Exec) EmptyDB(sc *Schema, slots map[string]int) *SymDB {
 	tt := ex.tt
